@@ -355,6 +355,26 @@ pub fn gen_scenario(seed: u64, large: u8) -> Scenario {
         // vertices, far above any plausible "go parallel" threshold
         const HUGE_OPS: &[&str] = &["aggregates", "geodesic_aggregates", "par_iter_multipolygon", "par_iter_multipoint_mls", "convex_hull", "quick_and_graham_hull",
             "simplify", "simplify_vw", "densify_segmentize", "traversals", "transforms", "extremes", "minimum_rotated_rect", "outliers", "unary_union", "earcut_triangles"];
+        // phase 4 ("many", atomic-granular tier): the same kind of operations plus the quadratic
+        // set measures and the spatial-index users, on 1 100 - 4 200 members / points / vertices:
+        // above the thresholds at which code goes parallel, cheap enough for thousands of runs
+        const MANY_OPS: &[&str] = &["set_distances", "concave_hull", "k_nearest_concave_hull", "collection_ops", "validation", "stitch_triangulation", "interior_point", "simplify_vw_preserve", "distance"];
+        if large == 4 {
+            if !HUGE_OPS.contains(&op.name) && !MANY_OPS.contains(&op.name) {
+                continue;
+            }
+            let fams: Vec<&str> = ["mantissa", "cloud", "circles"].into_iter().filter(|f| ops::compatible(op, f)).collect();
+            if fams.is_empty() {
+                continue;
+            }
+            let fam = *rng.pick(&fams);
+            let size = *rng.pick(&[1100usize, 1100, 2100, 4200]);
+            let size = match op.name {
+                "concave_hull" | "k_nearest_concave_hull" | "outliers" | "unary_union" | "stitch_triangulation" | "interior_point" | "validation" | "collection_ops" | "par_iter_multipolygon" => size.min(1100),
+                _ => size,
+            };
+            return Scenario { op: op.name.to_string(), input: InputSpec { family: fam.to_string(), size, seed: rng.next_u64() }, knobs: Knobs { strategy: 0, par_sort_min_size: 32768 } };
+        }
         if large == 3 {
             if !HUGE_OPS.contains(&op.name) {
                 continue;
@@ -1013,6 +1033,7 @@ pub fn run(a: &Args) -> i32 {
     let stream = match large {
         0 => "C20",
         3 => "C20-huge",
+        4 => "C20-many",
         _ => "C20-large",
     };
     let mut tot = Tot::default();
